@@ -64,7 +64,11 @@ func VerifHarness_C09_MergeBlocks() {
 	var all [][]vC09Pt // per input block, in file order
 	next := int64(100)
 	for f := 0; f < nFiles; f++ {
-		nBlocks := vLen("blocksInFile", 1, 2)
+		maxB := 2
+		if nFiles == 3 {
+			maxB = 1 // three files (thorough): one block each
+		}
+		nBlocks := vLen("blocksInFile", 1, maxB)
 		var prevMax int64
 		for b := 0; b < nBlocks; b++ {
 			n := vLen("pointsInBlock", 1, 2)
